@@ -26,7 +26,7 @@ uint64_t vb_deleted; int vb_deleted_J; struct ObjectHeaderBase *vb_deleted_ptr_J
 void ObjectHeaderBase_v_delete(struct ObjectHeaderBase *p) { vb_deleted++; }
 #include "ObjectQueue.c"
 /* abstract state */
-#define RI(q) ((q).m_queue.head_seq <= (q).m_queue.tail_seq && (q).m_queue.tail_seq - (q).m_queue.head_seq <= 0xffffffffull && \
+#define RI(q) ((q).m_queue.head_seq <= (q).m_queue.tail_seq && (q).m_queue.tail_seq - (q).m_queue.head_seq <= 0xffffffffull && (q).m_queue.tail_seq <= ((uint64_t)1 << 62) && \
     (!((q).m_queue.head_seq <= VB_J && VB_J < (q).m_queue.tail_seq) || (q).m_queue.at_J != 0))
 #define EMPTY(q) ((q).m_queue.head_seq == (q).m_queue.tail_seq)
 #define SIZE(q) ((q).m_queue.tail_seq - (q).m_queue.head_seq)
